@@ -128,7 +128,9 @@ CLAIMED = {
              "implies True unless the node budget or the deadline fired in that run, and exactly True with a budget of "
              "node_bound and no deadline hit; a True answer survives any more generous configuration; the search ends on every "
              "store; batch_check equals the individual checks (memo included); unknown, false and raising caveats do not count "
-             "and the derivable relations are those of the store stripped of non-holding caveated tuples. A verified "
+             "and the derivable relations are those of the store stripped of non-holding caveated tuples; the store enters only as a "
+             "set and positively (RebacMono.v: equal tuple sets give equal derivability and, with sufficient budget and no "
+             "deadline, equal answers; adding tuples or depth never revokes a True, removing never grants). A verified "
              "executable spec (within_b) is applied to the implementation's answers: True for a non-derivable relation, or any "
              "answer other than derivability when no limit fired in the model's run, is a violation with the case as replay; "
              "other differences are broken correspondence.",
